@@ -188,6 +188,10 @@ func runC10(c *kernel.Ctx) {
 	maxSteps := 1500
 	for step := 0; step < maxSteps; step++ {
 		c.Step()
+		// a microsecond passes between any two scheduling steps: two goroutines never act at the same
+		// simulated instant, so timers they arm never tie (which of two timers due at the same instant the
+		// runtime fires first is not owned by anybody)
+		time.Sleep(time.Microsecond)
 		world.Settle()
 		parked := baton.Parked()
 		var feedable []int
